@@ -1,5 +1,6 @@
 (* C11/Driver.v — entry point of the correspondence run (extracted to OCaml). *)
 From RM Require Import C11.Model.
+From RM Require C09.Model C09.Grammar C11.Text C11.Text2.
 Open Scope Z_scope.
 
 (* front-end (G): Symbolizer::get_symbol_at_address(debug_file, debug_id, address): the module
@@ -22,13 +23,28 @@ Fixpoint run_queries (p : profile) (st : symtab) (mbase : Z) (tbl : list (range 
   end.
 
 (* module 0 is (mbase, msize, true) *)
-Definition run_case (rf : raw_file) (mbase msize : Z) (extra : list (Z * Z * bool)) (qs : list Z)
+Definition run_case_st (st : symtab) (mbase msize : Z) (extra : list (Z * Z * bool)) (qs : list Z)
   : outcome (list (sym_out * option (Z * sym_out) * option Z)) :=
-  do st <- build_symtab rf;
   let mods : list module :=
     (mbase, msize, Some st) :: map (fun m : Z * Z * bool => (fst m, if snd m then Some st else None)) extra in
   do tbl <- mod_table mods;
   run_queries Debug st mbase tbl mods qs.
+
+Definition run_case (rf : raw_file) (mbase msize : Z) (extra : list (Z * Z * bool)) (qs : list Z)
+  : outcome (list (sym_out * option (Z * sym_out) * option Z)) :=
+  do st <- build_symtab rf; run_case_st st mbase msize extra qs.
+
+(* round 5: the model reading the TEXT (the two sides of c11_from_parse, executed).  [ds] = the lines of the
+   symbol file, run-length encoded, each with the decision of the parse loop (true = dropped as over-long:
+   C09's [bump_pst]); C09's line recogniser and [finish], then the table seen through the encodings [nm] / [tg]
+   (Text2.symtab_of_table).  None = the text does not parse. *)
+Definition table_of_text (nm : RM.C09.Grammar.rle -> Z) (tg : RM.C09.Grammar.win_info -> Z)
+                         (ds : list (bool * RM.C09.Grammar.rle)) : outcome (option symtab) :=
+  match RM.C09.Model.replay RM.C09.Grammar.rle RM.C09.Grammar.pst RM.C09.Grammar.recog_pst RM.C09.Grammar.bump_pst
+                            RM.C09.Grammar.lineno_pst RM.C09.Grammar.init_pst ds with
+  | inl q => do t <- RM.C09.Grammar.finish q; Ret (Some (RM.C11.Text2.symtab_of_table nm tg t))
+  | inr _ => Ret None
+  end.
 
 (* the parsed tables, for the table part of the answer line *)
 Definition table_of (rf : raw_file) : outcome symtab := build_symtab rf.
